@@ -13,19 +13,38 @@ Oracle, both directions (DESIGN.md C05):
 Vectors are judged through `validity` only, so any basis of a degenerate subspace is accepted (also when the repeated
 value sits at the cut between kept and dropped values).
 
-Tolerances (eps = 2.2e-16, kM = cond(M), lmin = lambda_min(M), all known to the generator):
+Tolerances (eps = 2.2e-16, kM = cond(M), lmin = lambda_min(M), ||A||, ||M|| = max(2-norm, norm scale of the leaves the
+operator is built from: a sum operator stores 0.25 A + R and 0.75 A - R and realises A only up to eps |R|)):
   dense paths: tau = 1e3 n eps kM;  residual <= tau (||A|| + |E_i| ||M||) ||x_i||;  orthonormality <= tau;
                values <= tau ||A|| / lmin  (backward stability of Cholesky reduction + eigh, constant 1e3)
-  davidson:    the routine stops when max|A X - M X diag(E)| < min_eps (entry-wise, over the whole batch) or when the
-               search space is the full space (then the Rayleigh-Ritz pairs are exact up to rounding); it never warns, and
-               max_niter is kept >= ceil(n/neig)+1 so that one of the two exits is always reached.  Hence
-               max|R| <= max(min_eps, tau_r) with tau_r = tau (||A|| + max|E| ||M||) max||x_i||, and by the Hermitian
-               residual bound (Kahan) the k values are within sqrt(n k) max|R| / sqrt(lmin) (1 + orth-defect) of k eigenvalues.
-               Orthonormality: Cholesky-QR of [V, t] loses orthogonality like eps cond^2; bound 1e-8 absolute is used
-               (measured worst case over 2e5 cases: see ASSUMPTIONS).
+  davidson:    the loop ends when max|A X - M X diag(E)| < min_eps (entry-wise, over the whole batch), when the search space is the
+               full space, or after max_niter iterations, and returns the best iterate; unless the residual test was met a
+               ConvergenceWarning is emitted (since the repair `fix: davidson returned unconverged eigenpairs without ...`).
+               Claim: a *silent* return has max|R| <= min_eps + tau_r (tau_r = rounding of our dense recomputation); a warned return
+               voids the accuracy claims (discard) but keeps shape / dtype / finiteness.  Values: by the Hermitian residual bound (Kahan)
+               the k Ritz values are within rho = 1.01 sqrt(n k) max|R| / sqrt(lmin) of k eigenvalues.  That these are the *extreme*
+               ones cannot follow from a residual: the generator therefore draws min_eps such that rho <= (smallest non-zero gap of the
+               generated spectrum)/4, so every returned vector is resolved to one eigenvalue (or one exactly repeated group).  What remains
+               is genuine mis-convergence (start block nearly orthogonal to a wanted eigenvector; seen once in 5.7e4 thorough cases, on a
+               fully clustered spectrum with min_eps 1e-5): such a case is re-run with 1e-4 min_eps and discarded
+               (`davidson_misconverged_at_loose_min_eps`, counted) only if that run agrees with LAPACK; a wrong selection fails both.
+               Orthonormality: Cholesky-QR of [V, t] loses orthogonality like eps cond([V,t])^2, which min_eps does not control
+               (measured up to 1.3e-7 with min_eps 1e-6); required: <= tau + 4 sqrt(n k) min_eps / ||A||, i.e. at least as good as the
+               eigenvector accuracy sqrt(n k) min_eps / ||A|| that the residual test itself implies.
 svd (through symeig of A^H A or A A^H, singular values s in [0.3, 3] by construction):
-  tau_s = 1e3 max(m,n) eps (smax/smin)^2;  U^H U = I, Vh Vh^H = I, A v_i = s_i u_i, U diag(S) Vh = A (full k) within
-  tau_s smax, S >= 0, S equal to the k extreme scipy svdvals within tau_s smax;  davidson: + sqrt(n k) min_eps / smin^2.
+  tau_s = 1e3 max(m,n) eps (smax/smin)^2;  U^H U = I, Vh Vh^H = I within tau_s;  A v_i = s_i u_i, A^H u_i = s_i v_i, U diag(S) Vh = A
+  (full k) and S vs the k extreme scipy svdvals within tau_s smax;  S >= 0;  davidson: tau_s + 4 sqrt(max(m,n) k) min_eps / smin^2.
+
+Recorded finding (SITES): davidson breaks down on a rank-deficient expansion block [V, t] (a residual column that is numerically zero
+while another pair is not converged): LinAlgError from the Cholesky-QR, or loss of orthogonality and a warned / wrong result.  With
+exactly repeated eigenvalues this happens when a multiplicity exceeds the block size neig (block-Krylov exhaustion) or, for small n,
+when dim V + multiplicity > n before the full space is reached.  That region (repeated eigenvalue and (multiplicity > neig or neig does
+not divide n)) is generated only if known_findings.json lists the site `davidson_rank_deficient_expansion`; otherwise multiplicities are
+capped at neig and n is a multiple of neig by construction (repetition at the cut is still generated: neig=2, spectrum 1,2,2,...).
+The same LinAlgError also occurs, rarely (about 1 in 1e4 davidson cases, clustered spectra, no exact repeat), when the residual block becomes
+numerically rank deficient; this cannot be excluded by construction, so on spectra with a cluster or repeat that exception kind is a
+known-finding hit when the site `davidson_clustered` is listed and an explicitly named discard otherwise (forward_call); on well separated
+spectra it is always a violation.
 """
 from __future__ import annotations
 
@@ -39,7 +58,7 @@ from hypothesis import strategies as st
 
 from pbt import gen
 from pbt import ref_c05 as R
-from pbt.harness import Task, ok, violation, discard, xt_call
+from pbt.harness import Task, ok, violation, discard, xt_call, XitorchRaised
 
 PID = "C05"
 RULE = ("symeig: prescribed generalised spectra (separated / clustered 1e-3 / exactly repeated, also at the cut; all-negative, "
@@ -47,15 +66,17 @@ RULE = ("symeig: prescribed generalised spectra (separated / clustered 1e-3 / ex
         "matrix-free (mv / mv+mm / mv+mm+fullmatrix), sums, differences, scalings; independent batch patterns of A and M (rank 0..2, "
         "broadcast by construction); neig in 1..n or None; mode spelled lowest/uppest/uppermost in mixed case; entry points symeig / "
         "lsymeig / usymeig; with and without grad mode. dense: exacteig (named or default) and custom_exacteig, f64/c128, n 2..8 "
-        "(thorough 12). davidson: real, n 8..32 (thorough 64), neig<=4, min_eps in {1e-4..1e-9}, v_init randn/rand/eye. svd: m,n<=8, "
+        "(thorough 12), 1 in 6 with exactly diagonal A and M. davidson: real, n 8..32 (thorough 64), neig<=4, min_eps in {1e-4..1e-9}, v_init randn/rand/eye, "
+        "max_niter default / sufficient / 1..4 (must then warn). svd: m,n<=8, "
         "tall/wide/square, real/complex, k in 1..min(m,n) or None, both modes, singular values in [0.3,3] incl. repeated and clustered. "
         "Non-trivial = at least two distinct eigen/singular values and (k < full or M given or a batch dimension > 1 or a "
         "composite/matrix-free operator); distinct by canonical case.")
 ASSUMPTIONS = [
     "dense reference: scipy.linalg.eigh(A, M) / scipy.linalg.svdvals of every broadcast batch element (LAPACK)",
-    "tolerances: see module docstring; constants 1e3 on n*eps*cond(M) (dense), max(min_eps, rounding) entry-wise residual for davidson",
-    "davidson is run with max_niter >= ceil(n/neig)+1 (default 1000), so it always ends by its residual test or by exhausting the space; "
-    "it emits no warning in any case (a ConvergenceWarning, if one were emitted, would void the accuracy claims of that case)",
+    "tolerances: see module docstring; constants 1e3 on n*eps*cond(M) (dense); davidson: silent return => entry-wise residual <= min_eps (+rounding)",
+    "davidson: a ConvergenceWarning voids the accuracy claims of that case (counted as discard `convergence_warning`; about 8% of the davidson "
+    "cases use max_niter in 1..4 on purpose); min_eps is drawn such that the residual resolution is <= 1/4 of the smallest non-zero gap",
+    "davidson: exact repeats only with multiplicity <= neig and n a multiple of neig unless known_findings.json lists site davidson_rank_deficient_expansion (recorded finding)",
     "davidson's start block is generic w.r.t. the eigenvectors (A = S Q diag Q^H S^H with seeded random Q), so mis-convergence from a start "
     "vector orthogonal to a wanted eigenvector is not generated (DESIGN.md section 6)",
     "davidson supports real dtypes only (it transposes without conjugation); complex is generated for the dense paths only",
@@ -70,6 +91,31 @@ WALL = {"quick": 300, "thorough": 1800}
 EPS = R.EPS
 MODES_LOW = ["lowest", "Lowest", "LOWEST"]
 MODES_UP = ["uppest", "uppermost", "Uppest", "UpperMost", "UPPERMOST"]
+
+
+BREAKDOWN_KIND = "exception:_LinAlgError@xitorch/_utils/tensor.py:tallqr"
+
+
+def forward_call(call, nograd, method, clustered):
+    """run the xitorch call.  davidson's Cholesky-QR breakdown (LinAlgError raised in tallqr) is a recorded, unrepaired finding whose
+    region is only partly structural (see rank_deficient_expansion_region; it also happens, about once in 1e4 cases, when the residual block
+    becomes numerically rank deficient on spectra with clusters): for spectra with a cluster or an exact repeat, if known_findings.json
+    lists it (site `davidson_clustered`) the violation is passed on and counted as a known-finding hit, otherwise the case is discarded under
+    an explicit reason and counted in the evidence.  On well separated spectra the exception is always a violation."""
+    try:
+        if nograd:
+            with torch.no_grad():
+                return xt_call(call, _where="forward"), None
+        return xt_call(call, _where="forward"), None
+    except XitorchRaised as e:
+        if method == "davidson" and clustered and e.kind.startswith(BREAKDOWN_KIND) and not _listed("davidson_clustered"):
+            return None, "davidson_cholesky_breakdown(recorded_finding_not_listed)"
+        raise
+
+
+def _listed(site):
+    from pbt.harness import load_known
+    return any(e.get("site") == site for e in load_known(PID))
 
 
 def _fmt(t):
@@ -91,7 +137,8 @@ def symeig_case_labels(case, p, k):
             "aop=%s" % case["aop"], "dtype=%s" % case["dtype"], "spectrum=%s" % spec, "cut=%s" % cut, "sign=%s" % sign,
             "neig=%s" % ("none" if case["neig"] is None else ("full" if k == n else "partial")),
             "batch=%dx%d" % (len(case["batchA"]), -1 if case["batchM"] is None else len(case["batchM"])),
-            "entry=%s" % case["entry"], "grad=%s" % (not case["nograd"]), "modestr=%s" % case["mode"]]
+            "entry=%s" % case["entry"], "grad=%s" % (not case["nograd"]), "modestr=%s" % case["mode"],
+            "structure=%s" % case.get("structure", "generic")]
 
 
 def run_symeig(case):
@@ -125,11 +172,9 @@ def run_symeig(case):
         return xl.usymeig(Aop, case["neig"], Mop, **kwargs)
     with warnings.catch_warnings(record=True) as wlist:
         warnings.simplefilter("always")
-        if case["nograd"]:
-            with torch.no_grad():
-                out = xt_call(call, _where="forward")
-        else:
-            out = xt_call(call, _where="forward")
+        out, broke = forward_call(call, case["nograd"], method, has_cluster(lam))
+    if broke:
+        return discard(broke, labels)
     warned = [w for w in wlist if "onverge" in type(w.message).__name__ or "onverge" in str(w.message)]
     if not (isinstance(out, tuple) and len(out) == 2):
         return violation("return_type", "symeig returned %r" % (type(out),), labels)
@@ -190,7 +235,29 @@ def run_symeig(case):
         tol_val = tau * a_norm / p.m_lmin
     if not orth <= tol_orth:
         return violation("orthonormality", "max|X^H M X - I| = %.3e > %.3e (n=%d k=%d)" % (orth, tol_orth, n, k), labels)
+    if method == "davidson":
+        labels = labels + ["conv=silent", "n=%s" % ("2-7" if n < 8 else ("8-32" if n <= 32 else "33-64")),
+                           "davidson:%s,%s,cut=%s" % ("M" if hasM else "noM", "lowest" if low else "uppest",
+                                                       [lb for lb in labels if lb.startswith("cut=")][0][4:])]
     if not verr <= tol_val:
+        if method == "davidson":
+            # A residual test cannot tell an extreme eigenpair from an interior one: a Krylov method whose start block has a small
+            # component along a wanted eigenvector legitimately stops at the next eigenvalue (mis-convergence; likelier the tighter the
+            # cluster and the looser min_eps).  It is told apart from a wrong selection by asking for 1e-4 * min_eps: the missed component
+            # is then amplified until it shows in the residual.  Only if the tighter run agrees with LAPACK is the case discarded.
+            kw2 = dict(kwargs)
+            kw2["min_eps"] = 1e-4 * min_eps
+            kw2.pop("max_niter", None)
+
+            def call2():
+                return xl.symeig(Aop, case["neig"], case["mode"], Mop, **kw2)
+            torch.manual_seed(case["seed"] & 0x7FFFFFFF)
+            with warnings.catch_warnings():
+                warnings.simplefilter("ignore")
+                with torch.no_grad():
+                    E2, _ = xt_call(call2, _where="forward")
+            if float((E2.to(torch.float64) - Eref).abs().max()) <= tol_val:
+                return discard("davidson_misconverged_at_loose_min_eps", labels)
         return violation("extremality", "eigenvalues differ from the %d %s of scipy.linalg.eigh by %.3e > %.3e: got %s ref %s all %s" % (
             k, "lowest" if low else "uppermost", verr, tol_val, _fmt(E), _fmt(Eref), _fmt(vals)), labels)
     distinct = len(set(lam)) >= 2
@@ -243,11 +310,9 @@ def run_svd(case):
         return xl.svd(Aop, case["k"], case["mode"], **kwargs)
     with warnings.catch_warnings(record=True) as wlist:
         warnings.simplefilter("always")
-        if case["nograd"]:
-            with torch.no_grad():
-                out = xt_call(call, _where="forward")
-        else:
-            out = xt_call(call, _where="forward")
+        out, broke = forward_call(call, case["nograd"], method, has_cluster(sv))
+    if broke:
+        return discard(broke, labels)
     warned = [w for w in wlist if "onverge" in type(w.message).__name__ or "onverge" in str(w.message)]
     if not (isinstance(out, tuple) and len(out) == 3):
         return violation("return_type", "svd returned %r" % (type(out),), labels)
@@ -362,7 +427,13 @@ def dense_case_st(draw, tier="quick"):
             "mkappa": draw(st.sampled_from([1.0, 2.0, 4.0, 10.0])),
             "aop": draw(st.sampled_from(R.HERM_KINDS)), "mop": draw(st.sampled_from(["dense", "dense", "mv", "full", "scaled", "add_du"])),
             "method": draw(st.sampled_from(["exacteig", "custom_exacteig", "default"])), "neig": neig, "mode": mode, "entry": entry,
+            "structure": draw(st.sampled_from(["generic"] * 5 + ["diag"])),
             "nograd": draw(st.sampled_from([False, False, True])), "opts": {}, "seed": draw(st.integers(0, 2 ** 31 - 1))}
+
+
+def has_cluster(vals):
+    """some neighbouring values closer than 0.01 (generated increments are 0, 1e-3 or >= 0.125)"""
+    return any(vals[i + 1] - vals[i] < 0.01 for i in range(len(vals) - 1))
 
 
 def max_multiplicity(vals):
@@ -395,12 +466,17 @@ def allowed_min_eps(n, k, mkappa, has_m, gap):
 
 @st.composite
 def davidson_case_st(draw, tier="quick", known_region=False):
-    n = draw(st.integers(8, 32 if tier == "quick" else 64))
-    neig, mode, entry = neig_mode_st(draw, n, maxk=4)
-    k = neig
-    # block-Krylov exhaustion (some multiplicity > block size = neig) is a recorded finding: generated only when it is listed
+    nmax = 32 if tier == "quick" else 64
+    n = draw(st.integers(8, nmax)) if draw(st.sampled_from([True] * 5 + [False])) else draw(st.integers(2, 7))
+    neig, mode, entry = neig_mode_st(draw, n, maxk=min(4, n))
+    k = n if neig is None else neig
+    # rank-deficient expansion blocks (see rank_deficient_expansion_region) are a recorded finding: generated only when it is listed;
+    # otherwise exact repeats have multiplicity <= neig and n is rounded down to a multiple of neig (construction, not rejection)
     unsafe = known_region and draw(st.sampled_from([False] * 7 + [True]))
-    lam = draw(spectrum_st(n, style=draw(st.sampled_from(["separated", "mixed", "repeated", "clustered"])), maxmult=None if unsafe else k))
+    style = draw(st.sampled_from(["separated", "mixed", "repeated", "clustered"]))
+    if not unsafe and style in ("mixed", "repeated"):
+        n = max(k, n - n % k)
+    lam = draw(spectrum_st(n, style=style, maxmult=None if unsafe else k))
     bA, bM = draw(batch_pair_st(tier))
     mkappa = draw(st.sampled_from([1.0, 2.0, 4.0, 10.0]))
     opts = {}
@@ -427,7 +503,7 @@ def svd_case_st(draw, tier="quick"):
     method = draw(st.sampled_from(["exacteig", "default", "custom_exacteig", "davidson"]))
     dav = method == "davidson"
     if dav:
-        m, n = draw(st.integers(6, 10)), draw(st.integers(6, 10))
+        m, n = draw(st.integers(6, 10)), draw(st.integers(6, 10))      # (r is rounded to a multiple of k below when values repeat)
     else:
         m, n = draw(st.integers(1, 8)), draw(st.integers(1, 8))
     r = min(m, n)
@@ -436,6 +512,12 @@ def svd_case_st(draw, tier="quick"):
     # singular values ascending in [0.6, 1.45] (times a batch scale in {0.5,1,2}): increments 0 / 1e-3 / regular.
     # davidson: no clusters (resolution of min_eps) and multiplicities <= k (block exhaustion, see SITES)
     style = draw(st.sampled_from(["separated", "repeated"] if dav else ["separated", "mixed", "repeated", "clustered"]))
+    if dav and style == "repeated" and r % k != 0:          # see rank_deficient_expansion_region: k must divide r
+        r = r - r % k
+        if m <= n:
+            m = r
+        else:
+            n = r
     incs = []
     run = 1
     for i in range(r - 1):
@@ -465,22 +547,32 @@ def svd_case_st(draw, tier="quick"):
             "seed": draw(st.integers(0, 2 ** 31 - 1))}
 
 
-def _multiplicity_exceeds_block(case):
+def rank_deficient_expansion_region(vals, k):
+    """davidson expands its basis V (d = k, 2k, ... columns) by the residuals t of the k wanted Ritz pairs and orthonormalises [V, t] by a
+    Cholesky factorisation of the Gram matrix.  A residual column that is numerically zero while another pair is not converged makes that
+    matrix singular.  With an exactly repeated eigenvalue of multiplicity g this happens (i) when g > k: the block-Krylov space is exhausted
+    before the full space; (ii) when d + g > n for some d reached before the full space: the eigenspace then meets V, so V contains exact
+    eigenvectors.  d takes the values k, 2k, ... < n, so (ii) is excluded iff g <= k and k divides n."""
+    g = max_multiplicity(vals)
+    return g > 1 and (g > k or len(vals) % k != 0)
+
+
+def _davidson_rank_deficient(case):
     if case.get("method") != "davidson":
         return False
     if "sv" in case:
-        return max_multiplicity(case["sv"]) > (case["k"] or min(case["m"], case["n"]))
-    return max_multiplicity(case["lam"]) > (case["neig"] or len(case["lam"]))
+        return rank_deficient_expansion_region(case["sv"], case["k"] or len(case["sv"]))
+    return rank_deficient_expansion_region(case["lam"], case["neig"] or len(case["lam"]))
 
 
-# davidson breaks down (Cholesky-QR of a rank-deficient expansion block) when some eigenvalue has a multiplicity larger than the
-# block size: see the final report / known_findings.json.  Generated only if a known finding with this site is listed.
-SITES = {"davidson_multiplicity_gt_block": _multiplicity_exceeds_block}
+# recorded finding (no small repair): generated only if known_findings.json lists this site
+SITES = {"davidson_rank_deficient_expansion": _davidson_rank_deficient,
+         # for the kind BREAKDOWN_KIND only:
+         "davidson_clustered": lambda case: case.get("method") == "davidson" and has_cluster(case.get("lam") or case.get("sv"))}
 
 
 def _known_region():
-    from pbt.harness import load_known
-    return any(e.get("site") == "davidson_multiplicity_gt_block" for e in load_known(PID))
+    return _listed("davidson_rank_deficient_expansion")
 
 
 def tasks(tier):
